@@ -8,6 +8,7 @@ import (
 	"runtime"
 	"strings"
 	"sync"
+	"sync/atomic"
 	"time"
 
 	"verifharness/fakemc"
@@ -198,6 +199,55 @@ func runDisconnect(c dCase) (sent, out []byte, l1, l2 string, problems []string)
 	return
 }
 
+// c15L2Down: a client connects at a moment when the L1 handler can be built but the L2 handler
+// cannot. Nothing can be served: the accept loop must close the client connection and the L1
+// handler it had already built; the next client (L2 back) is served.
+func c15L2Down(w *rig.Writer) {
+	for _, l1 := range []string{"std", "chunked"} {
+		cfg := stack.Config{Orca: "l1l2", MultiRd: true, L1: l1, Proto: "bin"}
+		ln := listenerFor(cfg)
+		b := stack.NewBackends()
+		b.L1.SetNow(cNow)
+		b.L2.SetNow(cNow)
+		ln.SetBackends(b)
+		base1 := b.L1.OpenConns()
+		in := map[string]interface{}{"kind": "l2-down-at-connect", "l1": l1}
+		atomic.StoreInt32(&ln.FailL2, 1)
+		cn, err := ln.Dial("bin")
+		if err != nil {
+			w.Fail(rig.GoFailure{Kind: "broken-correspondence", What: "dial through the accept loop failed", Input: in, Detail: err.Error()})
+			continue
+		}
+		select {
+		case <-cn.Done:
+		case <-time.After(10 * time.Second):
+			w.Fail(rig.GoFailure{Kind: "counterexample", What: "a client that connected while the L2 handler could not be built was neither served nor disconnected within 10 s", Input: in})
+		}
+		ok := false
+		for i := 0; i < 400 && !ok; i++ {
+			ok = b.L1.OpenConns() == base1
+			if !ok {
+				time.Sleep(5 * time.Millisecond)
+			}
+		}
+		if !ok {
+			w.Fail(rig.GoFailure{Kind: "counterexample", What: "the L1 handler built for a client whose L2 handler could not be built was not closed", Input: in,
+				Detail: fmt.Sprintf("open L1 backend connections: %d, before: %d", b.L1.OpenConns(), base1)})
+		}
+		cn.Close()
+		// L2 is back: the next client is served
+		c2, err := ln.Dial("bin")
+		if err == nil {
+			q := stack.Req{Kind: "set", Key: []byte("after-l2-down"), Data: []byte("v"), Opaque: 3}
+			if _, closed, xerr := c2.Exchange(q.EncodeBin(), 15*time.Second); xerr != nil || closed {
+				w.Fail(rig.GoFailure{Kind: "counterexample", What: "after a failed L2 handler construction the next client was not served", Input: in})
+			}
+			c2.Close()
+		}
+		w.Count("l2-down-at-connect l1=" + l1)
+	}
+}
+
 // rendGoroutines lists (by their innermost rend frame) the goroutines that are executing code of
 // the repository under test.
 func rendGoroutines() []string {
@@ -348,6 +398,9 @@ func c15(e *env) {
 				}
 			}
 		}
+	}
+	if replayArg(e) == "" {
+		c15L2Down(w)
 	}
 	nfail := 0
 	for _, c := range cases {
